@@ -236,6 +236,7 @@ def run(ctx: vlib.Ctx):
     ctx.extra["open_proof_targets"] = [
         "C10_cli_validate_partial needs the stage fact Validator(schema=None).validate(doc) == [] (checked per case, not proved)",
         "C10_stable_* take canonical re-readability (C01) and verdict invariance (C09/C11) as hypotheses; false today on F3/F4 inputs",
+        "C10_parse_failure_write_partial excludes parse_error_policy=salvage (F100)",
     ]
     ctx.trusted = ["Lean 4.33.0 kernel; axioms per theorem in coverage.theorems",
                    "tools/gen/tools.py (Gen/Envelopes, Gen/Guards, Gen/Schema: syntactic extraction with `ast`)",
